@@ -53,6 +53,26 @@ CLAIMS["C12"] = dict(
          "No reference assembler is installed.",
 )
 
+CLAIMS["C03"] = dict(
+    text="Proof with a prophecy predicate (defined_later) over arbitrary symbol tables and symbolic names: Symbol._resolve returns a binding only if it is the binding "
+         "of the FINAL tables - own scope first, whether the definition precedes or follows, then the exported symbol - and otherwise is not-ready (speculatively) or "
+         "reports undefined-symbol (final pass); definitions never overwrite; compile_assignment binds the value through a Deferred to the expression evaluated in the "
+         "definition-site state, with no late-bound captured variable; Deferred settles once; operator resolve() denotes the same value now or deferred. "
+         "A run-time check assembles a program under random placements/permutations of its definitions and chains of depth 300 / 30 (testing, separate).",
+    note="Trusted: pyvc incl. SymMap, z3. Assumed: non-speculative resolution happens only in the final waits; an aborted speculative attempt has no effect but diagnostics "
+         "(A3); name classes (A2). Recursion depth is a resource (run-time check only).",
+)
+
+CLAIMS["C11"] = dict(
+    text="Proof over arbitrary tables and symbolic names: labels and assignments are inserted under the case-folded key of their scope (local scope for numeric labels, "
+         "file prefix otherwise), a second definition of a visible name is a duplicate-symbol error that changes nothing, '::' / '==' / '.extern' / '.extern all' export "
+         "exactly the stated names, a second export is an error; lookup prefers the own scope (now or later) over exported symbols and never follows anything but the "
+         "extern mapping, an invisible name is undefined-symbol; every file gets a fresh prefix; compile_block opens a fresh local scope at block entry and after every "
+         "ordinary label, for statement lists of arbitrary length; keys of different scopes never collide (string lemmas). Run-time check: 16 multi-file/scope programs.",
+    note="Trusted: pyvc incl. SymMap, z3 strings. Assumed: name classes (A2), final-pass assumption as in C03. Not claimed: comparison with a reference assembler; "
+         "visibility of an enclosing scope's local label inside a .repeat body (observation D11).",
+)
+
 CLAIMS["C05"] = dict(
     text="Proof over Z for the evaluation side: each of the 12 infix and 4 prefix operator bodies equals the documented arithmetic (floor division and modulo for "
          "either sign, shifts as multiplication / floor division by 2^n, bitwise operators are Python's), division by zero and negative shift counts are "
